@@ -28,6 +28,7 @@ import (
 
 	"github.com/rulego/streamsql/aggregator"
 	"github.com/rulego/streamsql/condition"
+	"github.com/rulego/streamsql/functions"
 	"github.com/rulego/streamsql/types"
 	"github.com/rulego/streamsql/utils/cast"
 	"github.com/rulego/streamsql/utils/fieldpath"
@@ -95,7 +96,10 @@ type aggSpec struct {
 	alias      string
 	aggType    aggregator.AggregateType
 	inputField string // "*" for count(*)
-	prototype  aggregator.AggregatorFunction
+	// expr is set when the aggregate's argument is an expression (sum(v*2)): the
+	// aggregate is fed the expression's per-row value, not the inputField column.
+	expr      *types.FieldExpression
+	prototype aggregator.AggregatorFunction
 }
 
 // triggerSpec describes one aggregate call extracted from TRIGGER WHEN.
@@ -184,12 +188,17 @@ func (gw *GlobalWindow) buildOutputSpecs() error {
 		if proto == nil {
 			continue
 		}
-		gw.outputSpecs = append(gw.outputSpecs, aggSpec{
+		spec := aggSpec{
 			alias:      alias,
 			aggType:    aggType,
 			inputField: inputField,
 			prototype:  proto,
-		})
+		}
+		if fe, ok := gw.config.FieldExpressions[alias]; ok && strings.TrimSpace(fe.Expression) != "" {
+			fe := fe
+			spec.expr = &fe
+		}
+		gw.outputSpecs = append(gw.outputSpecs, spec)
 	}
 	return nil
 }
@@ -379,6 +388,9 @@ func isOpChar(c byte) bool {
 // or -1. count(*) is matched by inputField=="*".
 func (gw *GlobalWindow) findOutputSpec(aggType aggregator.AggregateType, inputField string) int {
 	for i := range gw.outputSpecs {
+		if gw.outputSpecs[i].expr != nil {
+			continue // sum(v*2) is not sum(v), although v is its input field
+		}
 		if gw.outputSpecs[i].aggType == aggType && normalizeField(gw.outputSpecs[i].inputField) == normalizeField(inputField) {
 			return i
 		}
@@ -471,7 +483,7 @@ func (gw *GlobalWindow) processRow(row types.Row) {
 		gs.keyValues[k] = v
 	}
 
-	feedAggs(gs.outputAggs, gw.outputSpecs, data)
+	gw.feedAggs(gs.outputAggs, gw.outputSpecs, data)
 	feedTriggerAggs(gs.triggerAggs, gw.triggerSpecs, data)
 
 	if gw.shouldFire(gs) {
@@ -654,10 +666,18 @@ func (gw *GlobalWindow) getKeyAndValues(data map[string]any) (string, map[string
 }
 
 // feedAggs feeds the row's field values into a group's output aggregators.
-func feedAggs(target map[string]aggregator.AggregatorFunction, specs []aggSpec, data map[string]any) {
+func (gw *GlobalWindow) feedAggs(target map[string]aggregator.AggregatorFunction, specs []aggSpec, data map[string]any) {
 	for _, spec := range specs {
 		agg := target[spec.alias]
 		if agg == nil {
+			continue
+		}
+		if spec.expr != nil {
+			// same handling as the group aggregator: a failed or NULL evaluation
+			// contributes nothing, the value is added as evaluated
+			if val, err := gw.evalExpression(*spec.expr, data); err == nil && val != nil {
+				agg.Add(val)
+			}
 			continue
 		}
 		if spec.inputField == "*" {
@@ -693,6 +713,16 @@ func feedTriggerAggs(target map[string]aggregator.AggregatorFunction, specs []tr
 		}
 		agg.Add(toAggregateValue(val))
 	}
+}
+
+// evalExpression evaluates an aggregate argument expression against one row,
+// with the evaluator supplied by the stream (the one the group aggregator uses);
+// a window built without one falls back to the expression bridge.
+func (gw *GlobalWindow) evalExpression(fe types.FieldExpression, data map[string]any) (any, error) {
+	if eval := gw.config.ExpressionEvaluator; eval != nil {
+		return eval(fe, data)
+	}
+	return functions.GetExprBridge().EvaluateExpression(fe.Expression, data)
 }
 
 func lookupFieldValue(data map[string]any, field string) (any, bool) {
